@@ -466,7 +466,7 @@ theorem allInv_loop (strict : Bool) (target : Int) :
     unfold loop
     dsimp only
     split
-    · have := allInv_submitCap nAsk { s with semGen := s.semGen + 1 } h
+    · have := allInv_submitCap nAsk (askStep s) h
       split
       · exact this
       · exact this
@@ -476,8 +476,8 @@ theorem allInv_loop (strict : Bool) (target : Int) :
     unfold loop
     dsimp only
     split
-    · have hsub := allInv_submitCap nAsk { s with semGen := s.semGen + 1 } h
-      generalize submitCap { s with semGen := s.semGen + 1 } nAsk = sub at hsub ⊢
+    · have hsub := allInv_submitCap nAsk (askStep s) h
+      generalize submitCap (askStep s) nAsk = sub at hsub ⊢
       split
       · exact hsub
       · have hg := allInv_gather sub.1 false 1 rep hsub
@@ -530,6 +530,7 @@ theorem allInv_step (s : Ev) (op : Op) (h : AllInv s.jobs) : AllInv (step s op).
   | gather all size rep => exact allInv_gather s all size rep h
   | close rep => exact allInv_close s rep h
   | settle => exact allInv_settle s h
+  | askDelays ds => exact h
   | search c reps d => exact allInv_search s c reps d h
 
 theorem allInv_runOps : ∀ (ops : List Op) (s : Ev), AllInv s.jobs → AllInv (runOps s ops).jobs
@@ -1019,8 +1020,8 @@ theorem rep_loop (strict : Bool) (target : Int) :
     split
     · next hc =>
       rw [if_pos hc] at hs
-      have hsub := rep_submitCap nAsk { s with semGen := s.semGen + 1 } (rep_cfg (s := s) rfl rfl rfl h)
-      generalize submitCap { s with semGen := s.semGen + 1 } nAsk = sub at hsub hs ⊢
+      have hsub := rep_submitCap nAsk (askStep s) (rep_cfg (s := s) rfl rfl rfl h)
+      generalize submitCap (askStep s) nAsk = sub at hsub hs ⊢
       split
       · exact hsub
       · next hr => rw [if_neg hr] at hs; simp [SettledStop] at hs
@@ -1032,8 +1033,8 @@ theorem rep_loop (strict : Bool) (target : Int) :
     split
     · next hc =>
       rw [if_pos hc] at hs
-      have hsub := rep_submitCap nAsk { s with semGen := s.semGen + 1 } (rep_cfg (s := s) rfl rfl rfl h)
-      generalize submitCap { s with semGen := s.semGen + 1 } nAsk = sub at hsub hs ⊢
+      have hsub := rep_submitCap nAsk (askStep s) (rep_cfg (s := s) rfl rfl rfl h)
+      generalize submitCap (askStep s) nAsk = sub at hsub hs ⊢
       split
       · exact hsub
       · next hr =>
